@@ -36,3 +36,33 @@ Qed.
 (* what a zero stride means: the skeleton loop with stride 0 never finishes on a non-empty buffer *)
 Example C11_zero_stride_diverges : loop unit (skeleton_body (SData "x") (fun _ _ => 0%N) (fun _ a => a)) 1000 [1%N] tt = None.
 Proof. vm_compute. reflexivity. Qed.
+
+(* ---------------------------------------------------------------------------------------------------------------------
+   The same for the REGENERATED decoder bodies themselves (Gen/PyFuncs.v under Model/Py.v), on EVERY byte string: the decoder returns a
+   value — it neither raises nor runs out of fuel — with fuel len(data) + 3 (one unit per loop iteration / call): work proportional to
+   the buffer whatever the bytes, and the result is spelled out (the successive 16- / 8-byte pieces of the announced part). *)
+From Coq Require Import ZArith List.
+From PS Require Import Model.Py Proofs.PyParsers Proofs.PyTotal Gen.Tables Gen.PyFuncs.
+Import ListNotations.
+
+Theorem C11_py_getlbastatus_every_input : forall (data : bytes) f, (length data + 3 <= f)%nat ->
+  let announced := py_slice data (Some 8%Z) (Some (Z.of_N (ba_to_int (py_slice data None (Some 4%Z))) + 4)%Z) in
+  call_fun all_tables py_program f GLS [PBytes data] = Ok (PDict [("lbas", PList (map gls_desc (chunks (length announced) 16 announced)))]).
+Proof. exact getlbastatus_total. Qed.
+
+Theorem C11_py_read_keys_every_input : forall (data : bytes) f, (length data + 3 <= f)%nat ->
+  let announced := py_slice data (Some 8%Z) (Some (Z.of_N (ba_to_int (py_slice data (Some 4%Z) (Some 8%Z))) + 8)%Z) in
+  call_fun all_tables py_program f PRK [PBytes data] =
+  Ok (PDict [("pr_generation", PInt (Z.of_N (ba_to_int (py_slice data None (Some 4%Z)))));
+             ("reservation_keys", PList (map prk_key (chunks (length announced) 8 announced)))]).
+Proof. exact read_keys_total. Qed.
+
+(* in particular: never the exception of a loop that does not end, for any bytes *)
+Theorem C11_py_no_divergence : forall (data : bytes),
+  call_fun all_tables py_program (length data + 3) GLS [PBytes data] <> Raise Diverges /\
+  call_fun all_tables py_program (length data + 3) PRK [PBytes data] <> Raise Diverges.
+Proof.
+  intros data. split.
+  - rewrite (getlbastatus_total data (length data + 3) (le_n _)). discriminate.
+  - rewrite (read_keys_total data (length data + 3) (le_n _)). discriminate.
+Qed.
